@@ -16,7 +16,7 @@ from lib.ctx import MachineryError
 from harness.mt import mtlib
 
 QUICK_MC = ["q_plain", "q_flush", "q_fail", "q_timeout", "nw1", "live", "reinit", "reinit_fixed"]
-ALL_MC = ["plain", "bs1", "flush", "q_barrier", "fail", "spur", "timeout", "nw1", "live", "reinit", "reinit_fixed", "reinit_fixed3"]
+ALL_MC = ["plain", "bs1", "flush", "q_barrier", "fail", "spur", "timeout", "nw1", "live", "reinit", "reinit_fixed", "reinit_fixed3", "update"]
 
 def model_check(ctx):
     names = QUICK_MC if ctx.quick else ALL_MC
@@ -103,6 +103,13 @@ def run(ctx):
                 p = dict(threads=nw, blocksize=bs, timeout=to, seed=seed, perturb=[0, 30, 60][k % 3],
                          slicing=1 if k else 0, endafter=endafter, actions=",".join("%s%d" % a for a in acts))
                 jobs.append((g, p, acts))
+                if k == 0 and total > 1000:
+                    # lzma_filters_update() between Blocks (after a barrier / flush) and at arbitrary moments:
+                    # chain [delta(dist = 1 + version), LZMA2]; Block Headers must show the version in effect
+                    acts3 = sorted(set(rng.randrange(1, total) for _ in range(3)))
+                    a3 = [(rng.choice("fb"), o) for o in acts3]
+                    p3 = dict(p, seed=seed + 13, endafter=-1, updates=1, slicing=1, actions=",".join("%s%d" % a for a in a3))
+                    jobs.append((g, p3, a3))
                 if k == 1 and total > 1000:
                     # the same handle given to lzma_stream_encoder_mt() again without lzma_end(), then a full encode
                     p2 = dict(p, seed=seed + 7, endafter=-1, reinit_after=rng.randint(1, 6), watchdog=12)
@@ -182,13 +189,33 @@ def run(ctx):
                     violation("finish:roundtrip:%s" % g["inp"], "output does not decode to the input (%s)" % label, rp)
                 else:
                     lay = mtlib.layout(out)
+                    if "updates" in params:
+                        # the delta distance in each Block Header = the one its worker was given (hook) in Block order
+                        by_w = {}; dist_by_blk = []
+                        for e in evs[ri:]:
+                            if e["e"] == "GtStart":
+                                by_w[e["w"]] = len(dist_by_blk); dist_by_blk.append(None)
+                            elif e["e"] == "WEncInit" and e["w"] in by_w:
+                                dist_by_blk[by_w[e["w"]]] = e["a"]
+                        hdr = []
+                        for b in lay["blocks"]:
+                            h = out[b["off"]:b["off"] + b["bh"]]
+                            # Block Header: size, flags, [csize vli], [usize vli], filter flags: id 0x03, size 1, dist-1
+                            pos = 2
+                            for bit in (0x40, 0x80):
+                                if h[1] & bit:
+                                    _, pos = mtlib.vli(h, pos)
+                            hdr.append(h[pos + 2] + 1 if h[pos] == 0x03 else 0)
+                        if hdr != [d for d in dist_by_blk if d is not None][:len(hdr)]:
+                            violation("finish:update-chain:%s" % g["inp"], "delta distances in the Block Headers %s differ from "
+                                      "the chains given to the workers %s (%s)" % (hdr[:10], dist_by_blk[:10], label), rp)
                     got = [b["outsz"] for b in lay["blocks"]]
                     exp = expected_boundaries(len(data), g["bs"], [o for _, o in acts])
                     if got != exp or any(b["hdr"] != "ok" for b in lay["blocks"]):
                         violation("finish:boundaries:%s" % g["inp"], "Block sizes %s, expected %s (%s)" % (got[:12], exp[:12], label), rp)
                     # determinism: same bytes as the single-thread run with the same options and actions
-                    rk = (g["inp"], g["bs"], params["actions"])
-                    if rk not in ref_cache:
+                    rk = (g["inp"], g["bs"], params["actions"]) if "updates" not in params else None
+                    if rk is not None and rk not in ref_cache:
                         p1 = dict(threads=1, blocksize=g["bs"], seed=1, slicing=0)
                         if params["actions"]:
                             p1["actions"] = params["actions"]
@@ -200,7 +227,7 @@ def run(ctx):
                         else:
                             ref_cache[rk] = open(os.path.join(wd, "ref.out"), "rb").read()
                             os.unlink(os.path.join(wd, "ref.out"))
-                    if ref_cache[rk] is not None and ref_cache[rk] != out:
+                    if rk is not None and ref_cache[rk] is not None and ref_cache[rk] != out:
                         violation("finish:determinism:%s" % g["inp"], "output differs from the 1-thread one-shot output (%s)" % label, rp)
         tailsz = len(out) - 12 - sum(e["b"] for e in blocks) if finished else 0
         evs2 = [e for e in evs if e["e"] != "FlushDone" and not (e["e"] == "Reinited" and e["a"] != 0)]
